@@ -514,7 +514,7 @@ func CmdCheck(args []string) int {
 		tb = append(tb, "trusted contract (body not verified): "+k)
 	}
 	if jsonAssumed {
-		tb = append(tb, "encoding/json.Unmarshal into interface{} yields nil|bool|float64|string|[]interface{}|map[string]interface{} (assumed shape)")
+		tb = append(tb, "encoding/json.Unmarshal into interface{} yields nil|bool|float64|string|[]interface{}|map[string]interface{}; the repository's number-preserving decoder also int (assumed shape)")
 	}
 	level := "proof"
 	// the level recorded in the evidence is the category claimed for this property in MANIFEST.json
